@@ -409,4 +409,187 @@ theorem scores_size (fuel : Nat) (k : Consts K) (s : Store K) {r : ComputeReq K}
   rw [C08.discount_dim, hdim] at this
   exact this
 
+/-! ## 5. stored and inline local trust -/
+
+/-- The body of `GET /local-trust/{id}` for a stored matrix `M` (well-formed, square, no stored
+    zero, size ≥ 1), sent as an inline local trust, is accepted and loads to a matrix with the
+    very same rows and dimensions as `M`. -/
+theorem stored_eq_inline (M : CSM K) (hw : WFM M) (hsq : M.major = M.minor)
+    (hnz : ∀ i, ∀ e ∈ M.rows.getD i [], e.val ≠ 0) (h1 : 1 ≤ M.major) :
+    ∃ M', loadInlineMatrix
+        ⟨(M.major : Int), (entriesOf M).map fun (i, j, v) => ((i : Int), (j : Int), v)⟩ = some M' ∧
+      M'.rows = M.rows ∧ M'.major = M.major ∧ M'.minor = M.minor ∧ M'.hidden = [] :=
+  ⟨_, load_renderI hw hsq hnz h1, rfl, rfl, hsq, rfl⟩
+
+/-- Hence, when nothing is hidden behind the stored row table, a request naming the stored
+    matrix and the request carrying its GET body inline are prepared identically (and so yield
+    identical answers). -/
+theorem prepare_stored_eq_inline (k : Consts K) (s : Store K) (r : ComputeReq K) (id : String)
+    (M : CSM K) (hs : s.get? id = some M) (hw : WFM M) (hsq : M.major = M.minor)
+    (hh : M.hidden = []) (hnz : ∀ i, ∀ e ∈ M.rows.getD i [], e.val ≠ 0) (h1 : 1 ≤ M.major) :
+    prepare k s { r with localTrust := .stored id } =
+      prepare k s { r with localTrust := .inline (renderI M) } := by
+  have hM : (⟨M.major, M.major, M.rows, []⟩ : CSM K) = M := by
+    cases M; simp only at hsq hh; subst hsq; subst hh; rfl
+  have hl : loadMatrix s (.inline (renderI M)) = loadMatrix s (.stored id) := by
+    show loadInlineMatrix (renderI M) = s.get? id
+    rw [hs, load_renderI hw hsq hnz h1, hM]
+  rw [prepare_eq, prepare_eq]
+  simp only [hl]
+  rfl
+
+/-! ## non-vacuity at `K := ℚ` -/
+
+section examples
+
+-- `ℚ` carries two `Scalar` instances (`ratScalar` for the driver, `fieldScalar` for proofs);
+-- the examples use the proof instance.
+attribute [local instance 10000] fieldScalar
+
+/-- the first worked example of the API document: 3 peers -/
+private def exLT : IMatrix ℚ := ⟨3, [(0, 1, 1), (0, 2, 1), (1, 2, 100)]⟩
+/-- the pre-trust example of the API document -/
+private def exPT : IVector ℚ := ⟨3, [(0, 1/2), (2, 1)]⟩
+private def exK : Consts ℚ := ⟨1/2, 1/1000000⟩
+private def exReq : ComputeReq ℚ :=
+  { localTrust := .inline exLT, preTrust := some (.inline exPT) }
+
+private theorem exReq_valid : ValidReq exReq := by
+  refine ⟨⟨exLT, rfl, ?_, ?_, ?_⟩, ⟨?_, ?_, ?_⟩, trivial, nofun, nofun, nofun, nofun, nofun,
+    nofun, nofun⟩
+  · decide
+  · intro e he
+    simp only [exLT, List.mem_cons, List.not_mem_nil, or_false] at he
+    rcases he with rfl | rfl | rfl <;> decide
+  · decide
+  · decide
+  · intro e he
+    simp only [exPT, List.mem_cons, List.not_mem_nil, or_false] at he
+    rcases he with rfl | rfl <;> norm_num [exPT]
+  · decide
+
+/-- a 2-peer request with a distrust entry, a larger initial trust and explicit parameters -/
+private def exReq2 : ComputeReq ℚ :=
+  { localTrust := .inline ⟨2, [(0, 1, 1), (1, 0, -1)]⟩
+    initialTrust := some (.inline ⟨3, [(2, 5)]⟩)
+    alpha := some (1/4), epsilon := some (1/100), flatTail := some 2, minIterations := some 3
+    checkFreq := some 2 }
+
+private theorem exReq2_valid : ValidReq exReq2 := by
+  refine ⟨⟨_, rfl, ?_, ?_, ?_⟩, trivial, ⟨?_, ?_, ?_⟩, ?_, ?_, ?_, nofun, nofun, ?_, ?_⟩
+  · decide
+  · intro e he
+    simp only [List.mem_cons, List.not_mem_nil, or_false] at he
+    rcases he with rfl | rfl <;> decide
+  · decide
+  · decide
+  · intro e he
+    simp only [List.mem_cons, List.not_mem_nil, or_false] at he
+    subst he; norm_num
+  · decide
+  · intro a ha; cases ha; norm_num
+  · intro e he; cases he; norm_num
+  · intro x hx; cases hx; decide
+  · intro x hx; cases hx; decide
+  · intro x hx; cases hx; decide
+
+example : ∃ eff, prepare exK [] exReq = some eff := prepare_ok exK [] exReq_valid
+example : docDim exReq = 3 := by decide
+example : docDim exReq2 = 3 := by decide
+
+private theorem exPT_den :
+    vecDen exReq.preTrust 0 = 1/2 ∧ vecDen exReq.preTrust 1 = 0 ∧ vecDen exReq.preTrust 2 = 1 := by
+  refine ⟨?_, ?_, ?_⟩ <;> norm_num [vecDen, exReq, denIV, exPT]
+
+example : ∃ eff, prepare exK [] exReq = some eff ∧
+    denE eff.p.entries 0 = 1/3 ∧ denE eff.p.entries 1 = 0 ∧ denE eff.p.entries 2 = 2/3 := by
+  obtain ⟨eff, he⟩ := prepare_ok exK [] exReq_valid
+  have hd : docDim exReq = 3 := by decide
+  refine ⟨eff, he, ?_, ?_, ?_⟩ <;>
+  · rw [prepare_pretrust exK [] exReq_valid he, hd]
+    simp only [Finset.sum_range_succ, Finset.sum_range_zero, exPT_den.1, exPT_den.2.1, exPT_den.2.2]
+    norm_num
+
+/-- peer 0 splits its trust between peers 1 and 2; peer 2, without outgoing trust, trusts
+    according to the pre-trust -/
+example : ∃ eff, prepare exK [] exReq = some eff ∧
+    denRows eff.c.rows 0 1 = 1/2 ∧ denRows eff.c.rows 1 2 = 1 ∧
+    denRows eff.c.rows 2 0 = denE eff.p.entries 0 ∧
+    eff.a = 1/2 ∧ eff.e = (1/1000000) / 3 ∧ eff.t0 = none := by
+  obtain ⟨eff, he⟩ := prepare_ok exK [] exReq_valid
+  have hd : docDim exReq = 3 := by decide
+  have hdef := prepare_defaults exK [] exReq_valid he
+  refine ⟨eff, he, ?_, ?_, ?_, hdef.1, ?_, hdef.2.2.2.1.mpr rfl⟩
+  · rw [prepare_localtrust exK [] exReq_valid he 0 (by rw [hd]; omega), hd]
+    norm_num [Finset.sum_range_succ, matDen, exReq, denIM, exLT]
+  · rw [prepare_localtrust exK [] exReq_valid he 1 (by rw [hd]; omega), hd]
+    norm_num [Finset.sum_range_succ, matDen, exReq, denIM, exLT]
+  · rw [prepare_localtrust exK [] exReq_valid he 2 (by rw [hd]; omega), hd]
+    norm_num [Finset.sum_range_succ, matDen, exReq, denIM, exLT]
+  · rw [hdef.2.1, hd]; norm_num [exReq, exK]
+
+/-- the distrust of peer 1 towards peer 0 becomes a discount row; peer 1 has no positive
+    outgoing trust, so it trusts according to the (absent ⇒ uniform) pre-trust; the given
+    initial trust of size 3 enlarges everything to 3 peers -/
+example : ∃ eff, prepare exK [] exReq2 = some eff ∧
+    denRows eff.discounts.rows 1 0 = 1 ∧ denRows eff.discounts.rows 0 1 = 0 ∧
+    denRows eff.c.rows 1 2 = 1/3 ∧ denE eff.p.entries 2 = 1/3 ∧
+    eff.a = 1/4 ∧ eff.e = 1/100 ∧ eff.c.major = 3 ∧
+    (∃ t, eff.t0 = some t ∧ denE t.entries 2 = 1 ∧ denE t.entries 0 = 0) := by
+  obtain ⟨eff, he⟩ := prepare_ok exK [] exReq2_valid
+  have hd : docDim exReq2 = 3 := by decide
+  have hdef := prepare_defaults exK [] exReq2_valid he
+  have hdim := prepare_dims exK [] exReq2_valid he
+  have hp2 : denE eff.p.entries 2 = 1/3 := by
+    rw [prepare_pretrust exK [] exReq2_valid he, hd]
+    norm_num [Finset.sum_range_succ, vecDen, exReq2]
+  refine ⟨eff, he, ?_, ?_, ?_, hp2, hdef.1, hdef.2.1, by rw [hdim.2.1, hd], ?_⟩
+  · rw [prepare_discounts exK [] exReq2_valid he, hd]
+    norm_num [Finset.sum_range_succ, matDen, exReq2, denIM]
+  · rw [prepare_discounts exK [] exReq2_valid he, hd]
+    norm_num [Finset.sum_range_succ, matDen, exReq2, denIM]
+  · rw [prepare_localtrust exK [] exReq2_valid he 1 (by rw [hd]; omega), hd, hp2]
+    norm_num [Finset.sum_range_succ, matDen, exReq2, denIM]
+  · cases ht : eff.t0 with
+    | none => exact absurd (hdef.2.2.2.1.mp ht) (by simp [exReq2])
+    | some t =>
+      refine ⟨t, rfl, ?_, ?_⟩
+      · rw [prepare_initial exK [] exReq2_valid he t ht, hd]
+        norm_num [Finset.sum_range_succ, vecDen, exReq2, denIV]
+      · rw [prepare_initial exK [] exReq2_valid he t ht, hd]
+        norm_num [Finset.sum_range_succ, vecDen, exReq2, denIV]
+
+/-- invalid requests: size 0, index out of range, non-positive pre-trust value, alpha > 1,
+    minIterations = 0 — all answered 400 by both endpoints -/
+example : prepare exK [] { exReq with localTrust := .inline ⟨0, []⟩ } = none :=
+  prepare_invalid_localTrust _ _ _ ((loadMatrix_none_iff _ _).mpr (.inl ⟨_, rfl, .inl (by decide)⟩))
+example : prepare exK [] { exReq with localTrust := .inline ⟨2, [(0, 2, 1)]⟩ } = none :=
+  prepare_invalid_localTrust _ _ _
+    ((loadMatrix_none_iff _ _).mpr (.inl ⟨_, rfl, .inr ⟨(0, 2, 1), by simp, by decide⟩⟩))
+example : prepare exK [] { exReq with localTrust := .stored "nope" } = none :=
+  prepare_invalid_localTrust _ _ _ ((loadMatrix_none_iff _ _).mpr (.inr (.inl ⟨_, rfl, rfl⟩)))
+example : prepare exK [] { exReq with preTrust := some (.inline ⟨2, [(0, 0)]⟩) } = none :=
+  prepare_invalid_preTrust _ _ _ ⟨_, rfl,
+    (loadVector_none_iff _).mpr (.inl ⟨_, rfl, .inr ⟨(0, 0), by simp, by norm_num⟩⟩)⟩
+example : prepare exK [] { exReq with alpha := some 2 } = none :=
+  prepare_invalid_alpha _ _ _ ⟨2, rfl, .inr (by norm_num)⟩
+example : prepare exK [] { exReq with epsilon := some 0 } = none :=
+  prepare_invalid_epsilon _ _ _ ⟨0, rfl, .inl (by norm_num)⟩
+example : handleCompute 10 exK [] { exReq with minIterations := some 0 } = .badRequest ∧
+    handleComputeWithStats 10 exK [] { exReq with minIterations := some 0 } = .badRequest :=
+  badRequest_of_prepare_none _ _ _ _
+    (prepare_invalid_option _ _ _ (.inr (.inr (.inr (.inl ⟨0, rfl, by decide⟩)))))
+
+/-- a stored 2×2 matrix and its GET body -/
+private def exM : CSM ℚ := ⟨2, 2, [[⟨1, 3⟩], [⟨0, 1⟩, ⟨1, -2⟩]], []⟩
+example : WFM exM ∧ exM.major = exM.minor ∧ (∀ i, ∀ e ∈ exM.rows.getD i [], e.val ≠ 0) ∧
+    1 ≤ exM.major := by
+  refine ⟨by simp [WFM, WF, Sorted, exM], rfl, ?_, by decide⟩
+  intro i e he
+  rcases i with _ | _ | i <;> simp [exM] at he
+  · subst he; norm_num
+  · rcases he with rfl | rfl <;> norm_num
+
+end examples
+
 end EtVerif.C03
